@@ -10,7 +10,7 @@ from .. import fsmon, gen, model, sig
 
 PROP = "C02"
 LEVEL = "exploration"
-MONITORS = ["lazy_open_readonly", "alias", "init_layout", "reinit_readonly", "fresh_lookup", "prefix", "unknown_id"]
+MONITORS = ["init_restores_missing_file", "lazy_open_readonly", "alias", "init_layout", "reinit_readonly", "fresh_lookup", "prefix", "unknown_id"]
 RULE = (
     "Single-job cases: every state point of a typed universe (C01 alphabet, depth<=3, random deep) is opened "
     "under the FS monitor (no mutating event allowed), the caller's mapping is mutated afterwards, the job is "
@@ -184,6 +184,21 @@ def run_single(ctx, case):
             "reinit-rewrites", "a repeated init() of a valid job mutated the workspace",
             {"sp": sp, "events": s.briefs(root, only_mut=True), "diff": model.snap_diff(before, after)},
         )
+    # 4b. init() is what (re)creates a missing state point file - also the second time, on a handle that has seen it
+    if int(expected[4:6], 16) % 4 == 0:
+        ctx.monitor("init_restores_missing_file")
+        fn_sp = os.path.join(jd, model.SP_FILE)
+        os.remove(fn_sp)
+        try:
+            job.init()
+            back = model.read_json(fn_sp)
+        except Exception as e:  # noqa
+            back = repr(e)
+        if not model.typed_eq(back, sp):
+            ctx.violation("init-does-not-restore-statepoint-file",
+                          "after the state point file went missing, init() on the handle that created the job did not leave a file parsing to sp",
+                          {"sp": sp, "now": back})
+            return
     # 5. fresh session lookup
     if case.get("cache") and case.get("byid_first"):
         sig.fresh(root).update_cache()
